@@ -237,7 +237,13 @@ def oracle_crash_in_clone(args):
             if not fn.endswith(".yaml") or "-log_" in fn or fn.endswith("-events.yaml") or fn == t.main_log:
                 continue
             try:
-                cids = [g["id"] for g in load_log(os.path.join(tmp, fn))]
+                lc = load_log(os.path.join(tmp, fn))
+                cids = [g["id"] for g in lc]
+                if len(lc) != len(cids):
+                    problems.append("the clone's log %s says it holds %d snapshots, %d are on disk" % (fn, len(lc), len(cids)))
+                elif len(cids) >= 2 and (lc[-1]["id"] != cids[-1] or lc[-2]["id"] != cids[-2]):
+                    problems.append("the clone's log %s: log[-1], log[-2] are snapshots %r, %r; the last two on disk are %r"
+                                    % (fn, lc[-1]["id"], lc[-2]["id"], cids[-2:]))
             except Exception as e:  # noqa
                 problems.append("the clone's main log %s does not load after a crash before file operation %r of clone(): %s: %s"
                                 % (fn, args["k"], type(e).__name__, str(e)[:80]))
